@@ -92,6 +92,12 @@ pub enum FontLoadError {
     /// Failed to load a file from the data store.
     #[error("failed to load data store")]
     DataStore(#[source] StoreEntryError),
+    /// Two layers in layercontents.plist use the same directory.
+    #[error("the layer directory '{0}' is used by more than one layer")]
+    DuplicateLayerDirectory(PathBuf),
+    /// Two layers in layercontents.plist have the same name.
+    #[error("the layer name '{0}' is used by more than one layer")]
+    DuplicateLayerName(String),
     /// Failed to load the features.fea file.
     #[error("failed to read features.fea file")]
     FeatureFile(#[source] IoError),
@@ -148,6 +154,9 @@ pub enum FontLoadError {
         /// The underlying error.
         source: PlistError,
     },
+    /// A layer other than the default layer is named 'public.default' in layercontents.plist.
+    #[error("only the default layer ('glyphs' subdirectory) may be named 'public.default'")]
+    ReservedLayerName,
     /// Norad can currently only open UFO (directory) packages.
     #[error("only UFO (directory) packages are supported")]
     UfoNotADir,
